@@ -1,1 +1,828 @@
-(** Proofs/PyScopeProofs.v — placeholder, to be written. *)
+(** Proofs/PyScopeProofs.v — lemmas about Model/PyScope.v (C14). *)
+From PV Require Import PyScope.
+From Coq Require Import Lia.
+Open Scope string_scope.
+Open Scope list_scope.
+
+(** * Namespaces *)
+Lemma ns_get_set_same k v d : ns_get k (ns_set k v d) = Some v.
+Proof.
+  induction d as [|[k' v'] r IH]; simpl.
+  - now rewrite String.eqb_refl.
+  - destruct (String.eqb k k') eqn:E; simpl; rewrite E; auto.
+Qed.
+
+Lemma ns_get_set_other k k' v d : k <> k' -> ns_get k (ns_set k' v d) = ns_get k d.
+Proof.
+  intros N. induction d as [|[k2 v2] r IH]; simpl.
+  - apply String.eqb_neq in N. now rewrite N.
+  - destruct (String.eqb k' k2) eqn:E; simpl.
+    + apply String.eqb_eq in E; subst k2. apply String.eqb_neq in N. now rewrite N.
+    + now rewrite IH.
+Qed.
+
+Lemma ns_keys_set k k' v d : In k (ns_keys (ns_set k' v d)) <-> k = k' \/ In k (ns_keys d).
+Proof.
+  induction d as [|[k2 v2] r IH]; simpl.
+  - intuition.
+  - destruct (String.eqb k' k2) eqn:E; simpl.
+    + apply String.eqb_eq in E; subst k2. intuition.
+    + rewrite IH. intuition.
+Qed.
+
+Lemma ns_update_cons c k v d : ns_update c ((k, v) :: d) = ns_update (ns_set k v c) d.
+Proof. reflexivity. Qed.
+
+Lemma ns_get_update_notin k d : forall c, ~ In k (ns_keys d) -> ns_get k (ns_update c d) = ns_get k c.
+Proof.
+  induction d as [|[k' v'] r IH]; intros c N; [reflexivity|].
+  rewrite ns_update_cons, IH.
+  - apply ns_get_set_other. intros ->. apply N. now left.
+  - intros H. apply N. now right.
+Qed.
+
+Lemma ns_keys_update k d : forall c, In k (ns_keys (ns_update c d)) <-> In k (ns_keys c) \/ In k (ns_keys d).
+Proof.
+  induction d as [|[k' v'] r IH]; intros c.
+  - unfold ns_update; simpl. intuition.
+  - rewrite ns_update_cons, IH, ns_keys_set. simpl. intuition.
+Qed.
+
+(** applying a sequence of save() dicts to a context *)
+Definition apply_saves (c : ns) (ds : list ns) : ns := fold_left ns_update ds c.
+
+Lemma apply_saves_app c d1 d2 : apply_saves c (d1 ++ d2) = apply_saves (apply_saves c d1) d2.
+Proof. unfold apply_saves. now rewrite fold_left_app. Qed.
+
+Lemma apply_saves_get_untouched k ds : forall c,
+  (forall d, In d ds -> ~ In k (ns_keys d)) -> ns_get k (apply_saves c ds) = ns_get k c.
+Proof.
+  induction ds as [|d r IH]; intros c H; [reflexivity|].
+  simpl. rewrite IH.
+  - apply ns_get_update_notin. apply H. now left.
+  - intros d' Hd. apply H. now right.
+Qed.
+
+Lemma apply_saves_keys k ds : forall c,
+  In k (ns_keys (apply_saves c ds)) -> In k (ns_keys c) \/ exists d, In d ds /\ In k (ns_keys d).
+Proof.
+  induction ds as [|d r IH]; intros c H; [now left|].
+  simpl in H. apply IH in H. destruct H as [H|[d' [Hd Hk]]].
+  - apply ns_keys_update in H. destruct H; [now left|]. right. exists d. split; [now left|assumption].
+  - right. exists d'. split; [now right|assumption].
+Qed.
+
+(** * The frame relation for expression evaluation: context, save log and imports untouched *)
+Definition same_ctx (s s' : state) : Prop := ctx s' = ctx s /\ saves s' = saves s /\ imps s' = imps s.
+
+Lemma same_refl s : same_ctx s s.
+Proof. repeat split. Qed.
+
+Lemma same_trans a b c : same_ctx a b -> same_ctx b c -> same_ctx a c.
+Proof. unfold same_ctx. intros (A1 & A2 & A3) (B1 & B2 & B3). repeat split; congruence. Qed.
+
+Definition sound {A} (m : M A) : Prop := forall s r s', m s = (r, s') -> same_ctx s s'.
+
+Lemma sound_ret {A} (a : A) : sound (ret a).
+Proof. intros s r s' H. inversion H. apply same_refl. Qed.
+Lemma sound_raise {A} n m : sound (@raise A n m).
+Proof. intros s r s' H. inversion H. apply same_refl. Qed.
+Lemma sound_unsup {A} : sound (@unsup A).
+Proof. intros s r s' H. inversion H. apply same_refl. Qed.
+Lemma sound_get_st : sound get_st.
+Proof. intros s r s' H. inversion H. apply same_refl. Qed.
+
+Lemma sound_bind {A B} (m : M A) (f : A -> M B) : sound m -> (forall a, sound (f a)) -> sound (bindM m f).
+Proof.
+  intros Hm Hf s r s' H. unfold bindM in H.
+  destruct (m s) as [[a|n msg|] s1] eqn:E.
+  - eapply same_trans; [eapply Hm; eauto|eapply Hf; eauto].
+  - inversion H; subst. eapply Hm; eauto.
+  - inversion H; subst. eapply Hm; eauto.
+Qed.
+
+Lemma sound_modify f : (forall s, same_ctx s (f s)) -> sound (modify f).
+Proof. intros Hf s r s' H. inversion H. apply Hf. Qed.
+
+Lemma sound_apply {A} (m : M A) s r s' : sound m -> m s = (r, s') -> same_ctx s s'.
+Proof. intros H E. eapply H; eauto. Qed.
+
+Lemma same_set_g s c : same_ctx s (set_g c s).   Proof. repeat split. Qed.
+Lemma same_set_cns s c : same_ctx s (set_cns c s). Proof. repeat split. Qed.
+Lemma same_set_nsd s c : same_ctx s (set_nsd c s). Proof. repeat split. Qed.
+Lemma same_set_frames s c : same_ctx s (set_frames c s). Proof. repeat split. Qed.
+Lemma same_set_heap s c : same_ctx s (set_heap c s). Proof. repeat split. Qed.
+#[global] Hint Resolve same_refl same_set_g same_set_cns same_set_nsd same_set_frames same_set_heap : same.
+
+(** functions of the form [fun s => match .. with .. => (r, s) | .. => m s end] *)
+Ltac split_state H :=
+  repeat match type of H with
+         | context [match ?x with _ => _ end] => destruct x eqn:?
+         | context [if ?x then _ else _] => destruct x eqn:?
+         end.
+
+Ltac pure_sound :=
+  let s := fresh "s" in let r := fresh "r" in let s' := fresh "s'" in let H := fresh "H" in
+  intros s r s' H; cbv beta in H; split_state H;
+  try (inversion H; subst; auto with same; fail).
+
+Ltac state_cases tac :=
+  let s := fresh "s" in let r := fresh "r" in let s' := fresh "s'" in let H := fresh "H" in
+  intros s r s' H; cbv beta in H; split_state H;
+  first [ solve [inversion H; subst; auto with same] | revert H; tac ].
+
+Lemma sound_load_global E x : sound (load_global E x).
+Proof. unfold load_global, from_builtins. pure_sound. Qed.
+Lemma sound_load_name E x : sound (load_name E x).
+Proof. unfold load_name, from_builtins. pure_sound. Qed.
+
+Lemma sound_load_var E x : sound (load_var E x).
+Proof.
+  unfold load_var. intros s r s' H. split_state H; try (inversion H; subst; auto with same; fail).
+  - eapply sound_load_global; eauto.
+  - eapply sound_load_name; eauto.
+Qed.
+
+Lemma sound_alloc o : sound (alloc o).
+Proof. unfold alloc. pure_sound. Qed.
+Lemma sound_heap_extend r vs : sound (heap_extend r vs).
+Proof. unfold heap_extend. pure_sound. Qed.
+Lemma sound_bind_local x v : sound (bind_local x v).
+Proof. unfold bind_local. pure_sound. Qed.
+
+Lemma sound_bin_add a b : sound (bin_add a b).
+Proof.
+  unfold bin_add. destruct a, b; try (destruct (as_int _); try destruct (as_int _));
+    try apply sound_ret; try apply sound_raise.
+  intros s r s' H. split_state H; try (inversion H; subst; auto with same; fail).
+  all: revert H; apply sound_bind; [apply sound_alloc|intros; apply sound_ret].
+Qed.
+
+Lemma sound_do_binop op a b : sound (do_binop op a b).
+Proof.
+  destruct op; simpl.
+  - apply sound_bin_add.
+  - pure_sound.
+  - destruct a, b; try (destruct (as_int _); try destruct (as_int _));
+      try apply sound_ret; try apply sound_raise; pure_sound.
+Qed.
+
+Lemma sound_inplace_add a b : sound (inplace_add a b).
+Proof.
+  unfold inplace_add. destruct a; try apply sound_bin_add.
+  destruct b; try apply sound_bin_add.
+  - pure_sound.
+  - intros s r s' H. split_state H; try (inversion H; subst; auto with same; fail).
+    all: revert H; apply sound_bind; [apply sound_heap_extend|intros; apply sound_ret].
+Qed.
+
+Lemma sound_call_native n vs : sound (call_native n vs).
+Proof.
+  unfold call_native.
+  repeat match goal with
+         | |- sound (if ?c then _ else _) => destruct c
+         | |- sound (match ?x with _ => _ end) => destruct x
+         end;
+    try apply sound_ret; try apply sound_raise; try apply sound_unsup;
+    try (apply sound_bind; [apply sound_alloc|intros; apply sound_ret]);
+    try (state_cases ltac:(apply sound_bind; [apply sound_alloc|intros; apply sound_ret])).
+Qed.
+
+Lemma sound_get_attr E v a : sound (get_attr E v a).
+Proof.
+  unfold get_attr. destruct v;
+    repeat match goal with
+           | |- sound (if ?c then _ else _) => destruct c
+           | |- sound (match ?x with _ => _ end) => destruct x
+           end;
+    try apply sound_ret; try apply sound_raise; try apply sound_unsup; pure_sound.
+Qed.
+
+Lemma sound_check_list v : sound (check_list v).
+Proof.
+  unfold check_list. destruct v;
+    repeat match goal with
+           | |- sound (if ?c then _ else _) => destruct c
+           end;
+    try apply sound_ret; try apply sound_raise; try apply sound_unsup; pure_sound.
+Qed.
+
+Lemma sound_eval_list (ev1 : expr -> M value) es :
+  (forall e, In e es -> sound (ev1 e)) -> sound (eval_list ev1 es).
+Proof.
+  induction es as [|e r IH]; intros H; simpl; [apply sound_ret|].
+  apply sound_bind; [apply H; now left|intros v].
+  apply sound_bind; [apply IH; intros e' He'; apply H; now right|intros; apply sound_ret].
+Qed.
+
+Lemma sound_loop_list n : forall r idx body, (forall v, sound (body v)) -> sound (loop_list n r idx body).
+Proof.
+  induction n as [|n IH]; intros r idx body Hb; simpl; [apply sound_unsup|].
+  intros s res s' H. split_state H; try (inversion H; subst; auto with same; fail).
+  revert H. apply sound_bind; [apply Hb|intros; apply IH; assumption].
+Qed.
+
+Lemma sound_iterate lb v body : (forall x, sound (body x)) -> sound (iterate lb v body).
+Proof.
+  intros Hb. unfold iterate. destruct v; try apply sound_raise; try apply sound_unsup.
+  intros s res s' H. split_state H; try (inversion H; subst; auto with same; fail).
+  revert H. apply sound_loop_list; assumption.
+Qed.
+
+Lemma sound_comp_rest (ev1 : expr -> M value) lb cl : forall emit,
+  (forall c, In c cl -> sound (ev1 (snd c))) -> sound emit -> sound (comp_rest ev1 lb cl emit).
+Proof.
+  induction cl as [|[x it] r IH]; intros emit H He; simpl; [assumption|].
+  apply sound_bind; [apply (H (x, it)); now left|intros v].
+  apply sound_iterate. intros item.
+  apply sound_bind; [apply sound_bind_local|intros _].
+  apply IH; [intros c Hc; apply H; now right|assumption].
+Qed.
+
+(** * Generic soundness of expression evaluation.
+    [okE E e]: the static situation in which [e] is evaluated under [E] never reaches the
+    context through a store.  Instantiated twice below (exec: always; eval: no module-level [:=]). *)
+Section EvalSound.
+  Variable okE : env -> expr -> Prop.
+  Hypothesis ok_walrus : forall E x e1, okE E (XWalrus x e1) -> (forall v, sound (store_var E x v)) /\ okE E e1.
+  Hypothesis ok_bin : forall E op a b, okE E (XBin op a b) -> okE E a /\ okE E b.
+  Hypothesis ok_list : forall E es, okE E (XList es) -> forall e, In e es -> okE E e.
+  Hypothesis ok_lam : forall E ps body args, okE E (XLam ps body args) ->
+    (forall e, In e args -> okE E e) /\ okE (in_function E) body.
+  Hypothesis ok_comp : forall E elt cl, okE E (XComp elt cl) ->
+    let E' := if cls E then in_function E else E in
+    (forall c, In c cl -> okE E (snd c) /\ okE E' (snd c)) /\ okE E' elt.
+  Hypothesis ok_call : forall E f args, okE E (XCall f args) -> okE E f /\ (forall e, In e args -> okE E e).
+  Hypothesis ok_fn_body : forall E f args body, okE E (XCall f args) -> okE (in_function E) body.
+  Hypothesis ok_attr : forall E e a, okE E (XAttr e a) -> okE E e.
+  Hypothesis ok_append : forall E l x, okE E (XAppend l x) -> okE E l /\ okE E x.
+
+  Lemma sound_call_lambda ev E ps body vs :
+    sound (ev (in_function E) body) -> sound (call_lambda ev E ps body vs).
+  Proof.
+    intros H. unfold call_lambda. destruct (negb _); [apply sound_raise|].
+    apply sound_bind; [apply sound_modify; auto with same|intros _].
+    apply sound_bind; [assumption|intros v].
+    apply sound_bind; [apply sound_modify; auto with same|intros _; apply sound_ret].
+  Qed.
+
+  Lemma sound_call_def ev E ps body vs :
+    sound (ev (in_function E) body) -> sound (call_def ev E ps body vs).
+  Proof.
+    intros H. unfold call_def. destruct (negb _); [apply sound_raise|].
+    apply sound_bind; [apply sound_get_st|intros s0].
+    apply sound_bind; [apply sound_modify; auto with same|intros _].
+    apply sound_bind; [assumption|intros v].
+    apply sound_bind; [apply sound_modify; auto with same|intros _; apply sound_ret].
+  Qed.
+
+  Lemma sound_apply_value ev E fv vs :
+    (forall body, sound (ev (in_function E) body)) -> sound (apply_value ev E fv vs).
+  Proof.
+    intros H. unfold apply_value. destruct fv; try apply sound_raise.
+    - apply sound_call_native.
+    - intros s r s' Hr. split_state Hr; try (inversion Hr; subst; auto with same; fail).
+      revert Hr. apply sound_call_def. apply H.
+  Qed.
+
+  Lemma sound_eval_comp ev lb E elt cl :
+    (forall E' e, okE E' e -> sound (ev E' e)) -> okE E (XComp elt cl) -> sound (eval_comp ev lb E elt cl).
+  Proof.
+    intros Hev Hok. apply ok_comp in Hok. cbv zeta in Hok. destruct Hok as [Hcl Helt].
+    unfold eval_comp. destruct cl as [|[x1 it1] rest]; [apply sound_unsup|].
+    apply sound_bind; [apply Hev; apply (Hcl (x1, it1)); now left|intros v1].
+    apply sound_bind; [apply sound_alloc|intros r].
+    apply sound_bind; [apply sound_modify; auto with same|intros _].
+    apply sound_bind.
+    - apply sound_iterate. intros item.
+      apply sound_bind; [apply sound_bind_local|intros _].
+      apply sound_comp_rest.
+      + intros c Hc. apply Hev. apply Hcl. now right.
+      + apply sound_bind; [apply Hev; assumption|intros v; apply sound_heap_extend].
+    - intros _. apply sound_bind; [apply sound_modify; auto with same|intros _; apply sound_ret].
+  Qed.
+
+  Theorem sound_eval : forall fuel E e, okE E e -> sound (eval fuel E e).
+  Proof.
+    induction fuel as [|f IH]; intros E e Hok; [apply sound_unsup|].
+    destruct e as [ | b0 | z | s0 | x | op a b | es | ps body args | elt cl | x e1 | fe args | e1 a | l x ]; cbn [eval].
+    - apply sound_ret.
+    - apply sound_ret.
+    - apply sound_ret.
+    - apply sound_ret.
+    - apply sound_load_var.
+    - apply ok_bin in Hok. destruct Hok.
+      apply sound_bind; [apply IH; assumption|intros va].
+      apply sound_bind; [apply IH; assumption|intros vb]. apply sound_do_binop.
+    - apply sound_bind.
+      + apply sound_eval_list. intros e0 He. apply IH. eapply ok_list; eauto.
+      + intros vs. apply sound_bind; [apply sound_alloc|intros; apply sound_ret].
+    - apply ok_lam in Hok. destruct Hok as [Ha Hb].
+      apply sound_bind.
+      + apply sound_eval_list. intros e0 He. apply IH. auto.
+      + intros vs. apply sound_call_lambda. apply IH. assumption.
+    - apply sound_eval_comp; [intros; apply IH|]; assumption.
+    - apply ok_walrus in Hok. destruct Hok as [Hs He].
+      apply sound_bind; [apply IH; assumption|intros v].
+      apply sound_bind; [apply Hs|intros; apply sound_ret].
+    - pose proof (fun body => ok_fn_body E fe args body Hok) as Hbody. apply ok_call in Hok. destruct Hok as [Hf Ha].
+      apply sound_bind; [apply IH; assumption|intros fv].
+      apply sound_bind.
+      + apply sound_eval_list. intros e' He'. apply IH. auto.
+      + intros vs. apply sound_apply_value. intros body. apply IH. apply Hbody.
+    - apply ok_attr in Hok.
+      apply sound_bind; [apply IH; assumption|intros v; apply sound_get_attr].
+    - apply ok_append in Hok. destruct Hok.
+      apply sound_bind; [apply IH; assumption|intros lv].
+      apply sound_bind; [apply sound_check_list|intros r].
+      apply sound_bind; [apply IH; assumption|intros xv].
+      apply sound_bind; [apply sound_heap_extend|intros; apply sound_ret].
+  Qed.
+End EvalSound.
+
+(** * Instance 1: exec (exact-dict globals). No expression ever reaches the context. *)
+Lemma sound_store_var_plain E x v : gk E = GPlain -> sound (store_var E x v).
+Proof.
+  intros G. unfold store_var, store_global, store_name. rewrite G.
+  intros s r s' H. split_state H; inversion H; subst; auto with same.
+Qed.
+
+Theorem sound_eval_plain : forall fuel E e, gk E = GPlain -> sound (eval fuel E e).
+Proof.
+  intros fuel E e G.
+  apply (sound_eval (fun E _ => gk E = GPlain)); try assumption; clear.
+  - intros E x e1 H. split; [intros v; apply sound_store_var_plain; assumption|assumption].
+  - intros E op a b H; split; assumption.
+  - intros; assumption.
+  - intros E ps body args H; split; [intros; assumption|exact H].
+  - intros E elt cl H. cbv zeta.
+    split; [intros c Hc; split; [assumption|destruct (cls E); exact H]|destruct (cls E); exact H].
+  - intros E f args H; split; [assumption|intros; assumption].
+  - intros E f args body H. exact H.
+  - intros; assumption.
+  - intros E l x H; split; assumption.
+Qed.
+
+(** * Instance 2: eval (the ChainMap-pretend-dict namespace) *)
+
+(** [safe gx e]: every [:=] of [e] outside lambda bodies targets a name of [gx] (the names the
+    compiler made global-explicit, whose stores are STORE_GLOBAL) *)
+Fixpoint safe (gx : list string) (e : expr) : bool :=
+  match e with
+  | XWalrus x e1 => mem x gx && safe gx e1
+  | XBin _ a b => safe gx a && safe gx b
+  | XList es => forallb (safe gx) es
+  | XLam _ _ args => forallb (safe gx) args
+  | XComp elt cl => safe gx elt && forallb (fun c => match c with (_, it) => safe gx it end) cl
+  | XCall f args => safe gx f && forallb (safe gx) args
+  | XAttr e1 _ => safe gx e1
+  | XAppend l x => safe gx l && safe gx x
+  | _ => true
+  end.
+
+Definition ok_chain (E : env) (e : expr) : Prop := infn E = true \/ safe (gex E) e = true.
+
+Lemma sound_store_global E x v : sound (store_global E x v).
+Proof. unfold store_global. destruct (gk E); apply sound_modify; auto with same. Qed.
+
+Lemma sound_store_var_chain E x v : infn E || mem x (gex E) = true -> sound (store_var E x v).
+Proof.
+  intros G. unfold store_var. rewrite G.
+  intros s r s' H. split_state H; try (inversion H; subst; auto with same; fail).
+  eapply sound_store_global; eauto.
+Qed.
+
+Lemma forallb_In {A} (f : A -> bool) l x : forallb f l = true -> In x l -> f x = true.
+Proof. intros H. rewrite forallb_forall in H. auto. Qed.
+
+Theorem sound_eval_chain : forall fuel E e, ok_chain E e -> sound (eval fuel E e).
+Proof.
+  intros fuel E e G.
+  apply (sound_eval ok_chain); try assumption; clear; unfold ok_chain; simpl.
+  - intros E x e1 [H|H].
+    + split; [intros v; apply sound_store_var_chain; now rewrite H|now left].
+    + apply andb_true_iff in H. destruct H as [H1 H2].
+      split; [intros v; apply sound_store_var_chain; rewrite H1; apply orb_true_r|now right].
+  - intros E op a b [H|H]; [split; now left|].
+    apply andb_true_iff in H. destruct H. split; now right.
+  - intros E es [H|H] e He; [now left|]. right. eapply forallb_In; eauto.
+  - intros E ps body args H. split; [|now left].
+    destruct H as [H|H]; intros e He; [now left|]. right. eapply forallb_In; eauto.
+  - intros E elt cl H. cbv zeta. destruct H as [H|H].
+    + split; [intros c Hc; split|]; destruct (cls E); now left.
+    + apply andb_true_iff in H. destruct H as [H1 H2]. split.
+      * intros [x it] Hc. pose proof (forallb_In _ _ _ H2 Hc) as H3. simpl in H3.
+        split; [now right|]. destruct (cls E); [now left|now right].
+      * destruct (cls E); [now left|now right].
+  - intros E f args [H|H]; [split; [|intros]; now left|].
+    apply andb_true_iff in H. destruct H as [H1 H2]. split; [now right|].
+    intros e He. right. eapply forallb_In; eauto.
+  - intros. now left.
+  - intros E e a [H|H]; [now left|now right].
+  - intros E l x [H|H]; [split; now left|].
+    apply andb_true_iff in H. destruct H. split; now right.
+Qed.
+
+(** a walrus-free expression is safe whatever the global-explicit set *)
+Fixpoint walrus_free (e : expr) : bool :=
+  match e with
+  | XWalrus _ _ => false
+  | XBin _ a b => walrus_free a && walrus_free b
+  | XList es => forallb walrus_free es
+  | XLam _ body args => walrus_free body && forallb walrus_free args
+  | XComp elt cl => walrus_free elt && forallb (fun c => match c with (_, it) => walrus_free it end) cl
+  | XCall f args => walrus_free f && forallb walrus_free args
+  | XAttr e1 _ => walrus_free e1
+  | XAppend l x => walrus_free l && walrus_free x
+  | _ => true
+  end.
+
+Section ExprInd.
+  Variable P : expr -> Prop.
+  Hypothesis HNone : P XNone.
+  Hypothesis HBool : forall b, P (XBool b).
+  Hypothesis HInt : forall z, P (XInt z).
+  Hypothesis HStr : forall s, P (XStr s).
+  Hypothesis HName : forall x, P (XName x).
+  Hypothesis HBin : forall op a b, P a -> P b -> P (XBin op a b).
+  Hypothesis HList : forall es, Forall P es -> P (XList es).
+  Hypothesis HLam : forall ps body args, P body -> Forall P args -> P (XLam ps body args).
+  Hypothesis HComp : forall elt cl, P elt -> Forall (fun c => P (snd c)) cl -> P (XComp elt cl).
+  Hypothesis HWalrus : forall x e, P e -> P (XWalrus x e).
+  Hypothesis HCall : forall f args, P f -> Forall P args -> P (XCall f args).
+  Hypothesis HAttr : forall e a, P e -> P (XAttr e a).
+  Hypothesis HAppend : forall l x, P l -> P x -> P (XAppend l x).
+
+  Fixpoint expr_ind' (e : expr) : P e :=
+    let fix go (l : list expr) : Forall P l :=
+      match l with [] => Forall_nil _ | x :: r => Forall_cons _ (expr_ind' x) (go r) end in
+    let fix goc (l : list (string * expr)) : Forall (fun c => P (snd c)) l :=
+      match l with
+      | [] => Forall_nil _
+      | (x, it) :: r => Forall_cons (x, it) (expr_ind' it : P (snd (x, it))) (goc r)
+      end in
+    match e with
+    | XNone => HNone
+    | XBool b => HBool b
+    | XInt z => HInt z
+    | XStr s => HStr s
+    | XName x => HName x
+    | XBin op a b => HBin op a b (expr_ind' a) (expr_ind' b)
+    | XList es => HList es (go es)
+    | XLam ps body args => HLam ps body args (expr_ind' body) (go args)
+    | XComp elt cl => HComp elt cl (expr_ind' elt) (goc cl)
+    | XWalrus x e1 => HWalrus x e1 (expr_ind' e1)
+    | XCall f args => HCall f args (expr_ind' f) (go args)
+    | XAttr e1 a => HAttr e1 a (expr_ind' e1)
+    | XAppend l x => HAppend l x (expr_ind' l) (expr_ind' x)
+    end.
+End ExprInd.
+
+Lemma forallb_Forall_imp {A} (P : A -> Prop) (f g : A -> bool) l :
+  Forall (fun x => f x = true -> g x = true) l -> forallb f l = true -> forallb g l = true.
+Proof.
+  induction 1 as [|x r Hx Hr IH]; simpl; [auto|].
+  intros H. apply andb_true_iff in H. destruct H as [H1 H2].
+  rewrite Hx, IH; auto.
+Qed.
+
+Lemma walrus_free_safe gx e : walrus_free e = true -> safe gx e = true.
+Proof.
+  induction e using expr_ind'; simpl; intros Hw; auto;
+    try (apply andb_true_iff in Hw; destruct Hw as [H1 H2]).
+  - rewrite IHe1, IHe2; auto.
+  - revert Hw. apply (forallb_Forall_imp (fun _ => True)). assumption.
+  - revert H2. apply (forallb_Forall_imp (fun _ => True)). assumption.
+  - rewrite IHe; auto. simpl.
+    revert H2. apply (forallb_Forall_imp (fun _ => True)).
+    match goal with HF : Forall _ cl |- _ => eapply Forall_impl; [|exact HF] end.
+    intros [x it]; simpl; auto.
+  - discriminate.
+  - rewrite IHe; auto. simpl. revert H2. apply (forallb_Forall_imp (fun _ => True)). assumption.
+  - rewrite IHe1, IHe2; auto.
+Qed.
+
+(** * Top-level statements about [run_eval] *)
+Lemma same_after_set_frames s fs s' : same_ctx (set_frames fs s) s' -> same_ctx s s'.
+Proof. unfold same_ctx. simpl. auto. Qed.
+
+Theorem run_eval_safe mt b e s :
+  safe (gexs e) e = true -> same_ctx s (snd (run_eval mt b e s)).
+Proof.
+  intros H. unfold run_eval. destruct (wf_expr _ _ _ e); [|apply same_refl].
+  destruct (eval FUEL (eval_env mt b e) e (set_frames [] s)) as [r s'] eqn:E. simpl.
+  eapply (same_after_set_frames _ []).
+  eapply sound_eval_chain; [|exact E]. right. exact H.
+Qed.
+
+(** * Statements of a py block *)
+
+(** names a statement may hand to save() *)
+Definition stmt_targets (st : stmt) : list string :=
+  match st with SSave names kws => names ++ map fst kws | _ => [] end.
+
+Definition step_rel (T : list string) (s s' : state) : Prop :=
+  exists ds, saves s' = saves s ++ ds /\ ctx s' = apply_saves (ctx s) ds
+             /\ Forall (fun d => incl (ns_keys d) T) ds /\ imps s' = imps s.
+
+Lemma step_refl T s : step_rel T s s.
+Proof. exists []. rewrite app_nil_r. repeat split. constructor. Qed.
+
+Lemma step_of_same T s s' : same_ctx s s' -> step_rel T s s'.
+Proof. intros (A & B & C). exists []. rewrite app_nil_r. repeat split; auto. Qed.
+
+Lemma step_trans T a b c : step_rel T a b -> step_rel T b c -> step_rel T a c.
+Proof.
+  intros (d1 & A1 & A2 & A3 & A4) (d2 & B1 & B2 & B3 & B4). exists (d1 ++ d2).
+  repeat split.
+  - rewrite B1, A1. now rewrite app_assoc.
+  - rewrite B2, A2. now rewrite apply_saves_app.
+  - apply Forall_app. split; assumption.
+  - congruence.
+Qed.
+
+Lemma step_mono T T' s s' : incl T T' -> step_rel T s s' -> step_rel T' s s'.
+Proof.
+  intros I (ds & A & B & C & D). exists ds. repeat split; auto.
+  eapply Forall_impl; [|exact C]. intros d Hd k Hk. apply I. apply Hd. exact Hk.
+Qed.
+
+Definition ssound (T : list string) {A} (m : M A) : Prop := forall s r s', m s = (r, s') -> step_rel T s s'.
+
+Lemma ssound_of_sound T {A} (m : M A) : sound m -> ssound T m.
+Proof. intros H s r s' E. apply step_of_same. eapply H; eauto. Qed.
+
+Lemma ssound_bind T {A B} (m : M A) (f : A -> M B) :
+  ssound T m -> (forall a, ssound T (f a)) -> ssound T (bindM m f).
+Proof.
+  intros Hm Hf s r s' H. unfold bindM in H.
+  destruct (m s) as [[a|n msg|] s1] eqn:E.
+  - eapply step_trans; [eapply Hm; eauto|eapply Hf; eauto].
+  - inversion H; subst. eapply Hm; eauto.
+  - inversion H; subst. eapply Hm; eauto.
+Qed.
+
+Lemma collect_saved_keys names gl : forall d0 d,
+  collect_saved names gl d0 = inr d -> incl (ns_keys d) (ns_keys d0 ++ names).
+Proof.
+  induction names as [|x r IH]; intros d0 d H; simpl in H.
+  - inversion H; subst. rewrite app_nil_r. apply incl_refl.
+  - destruct (ns_get x gl); [|discriminate]. apply IH in H.
+    intros k Hk. apply H in Hk. apply in_app_or in Hk. apply in_or_app.
+    destruct Hk as [Hk|Hk].
+    + apply ns_keys_set in Hk. destruct Hk as [->|Hk]; [right; now left|now left].
+    + right. now right.
+Qed.
+
+Lemma sound_eval_kws (ev1 : expr -> M value) kws :
+  (forall c, In c kws -> sound (ev1 (snd c))) -> sound (eval_kws ev1 kws).
+Proof.
+  induction kws as [|[k e] r IH]; intros H; simpl; [apply sound_ret|].
+  apply sound_bind; [apply (H (k, e)); now left|intros v].
+  apply sound_bind; [apply IH; intros c Hc; apply H; now right|intros; apply sound_ret].
+Qed.
+
+Lemma eval_kws_keys (ev1 : expr -> M value) kws : forall s kvs s',
+  eval_kws ev1 kws s = (Ok kvs, s') -> map fst kvs = map fst kws.
+Proof.
+  induction kws as [|[k e] r IH]; intros s kvs s' H; simpl in H.
+  - inversion H; reflexivity.
+  - unfold bindM in H. destruct (ev1 e s) as [[v| |] s1]; try discriminate.
+    destruct (eval_kws ev1 r s1) as [[vs| |] s2] eqn:E; try discriminate.
+    inversion H; subst. simpl. f_equal. eapply IH; eauto.
+Qed.
+
+Lemma ssound_do_save T names kvs :
+  incl (names ++ map fst kvs) T -> ssound T (do_save names kvs).
+Proof.
+  intros I s r s' H. unfold do_save in H.
+  destruct (collect_saved names (g s) []) as [x|d] eqn:C.
+  - inversion H; subst. apply step_refl.
+  - inversion H; subst. exists [ns_update d kvs]. simpl. repeat split.
+    constructor; [|constructor].
+    intros k Hk. apply I. apply ns_keys_update in Hk. apply in_or_app.
+    destruct Hk as [Hk|Hk]; [left|right; exact Hk].
+    apply collect_saved_keys in C. apply C in Hk. simpl in Hk. exact Hk.
+Qed.
+
+Lemma sound_class_body (ev1 : expr -> M value) attrs :
+  (forall c, In c attrs -> sound (ev1 (snd c))) -> sound (class_body ev1 attrs).
+Proof.
+  induction attrs as [|[a e] r IH]; intros H; simpl; [apply sound_ret|].
+  apply sound_bind; [apply (H (a, e)); now left|intros v].
+  apply sound_bind; [apply sound_modify; auto with same|intros _].
+  apply IH. intros c Hc. apply H. now right.
+Qed.
+
+Theorem ssound_exec_stmt T fuel E st :
+  gk E = GPlain -> incl (stmt_targets st) T -> ssound T (exec_stmt fuel E st).
+Proof.
+  intros G I. destruct st; simpl.
+  - apply ssound_of_sound. apply sound_bind; [apply sound_eval_plain; assumption|intros; apply sound_store_var_plain; assumption].
+  - apply ssound_of_sound. apply sound_bind; [apply sound_load_var|intros old].
+    apply sound_bind; [apply sound_eval_plain; assumption|intros v].
+    apply sound_bind; [apply sound_inplace_add|intros; apply sound_store_var_plain; assumption].
+  - apply ssound_of_sound. destruct (mod_get _ _); [apply sound_store_var_plain; assumption|apply sound_raise].
+  - apply ssound_of_sound. destruct (mod_get _ _); [|apply sound_raise].
+    destruct (ns_get _ _); [apply sound_store_var_plain; assumption|apply sound_raise].
+  - apply ssound_of_sound. apply sound_bind; [apply sound_alloc|intros; apply sound_store_var_plain; assumption].
+  - apply ssound_of_sound. apply sound_bind; [apply sound_modify; auto with same|intros _].
+    apply sound_bind; [apply sound_class_body; intros; apply sound_eval_plain; assumption|intros _].
+    apply sound_bind; [apply sound_get_st|intros s1].
+    apply sound_bind; [apply sound_alloc|intros; apply sound_store_var_plain; assumption].
+  - (* save *)
+    apply ssound_bind; [apply ssound_of_sound, sound_load_var|intros fv].
+    intros s r s' H. unfold bindM in H.
+    destruct (eval_kws (eval fuel E) kws s) as [[kvs| |] s1] eqn:EK.
+    + assert (S1 : same_ctx s s1).
+      { eapply (sound_eval_kws (eval fuel E) kws); [|exact EK].
+        intros; apply sound_eval_plain; assumption. }
+      apply eval_kws_keys in EK.
+      eapply step_trans; [apply step_of_same; exact S1|].
+      destruct fv; try (inversion H; subst; apply step_refl).
+      destruct (String.eqb name "<save>").
+      * eapply ssound_do_save; [|exact H]. simpl in I. rewrite EK. exact I.
+      * destruct (String.eqb name "<builtins>"); inversion H; subst; apply step_refl.
+    + inversion H; subst. apply step_of_same.
+      eapply (sound_eval_kws (eval fuel E) kws); [|exact EK]. intros; apply sound_eval_plain; assumption.
+    + inversion H; subst. apply step_of_same.
+      eapply (sound_eval_kws (eval fuel E) kws); [|exact EK]. intros; apply sound_eval_plain; assumption.
+  - apply ssound_of_sound. apply sound_bind; [apply sound_eval_plain; assumption|intros; apply sound_ret].
+  - apply ssound_of_sound. rewrite G. pure_sound.
+Qed.
+
+Definition block_targets (b : list stmt) : list string := flat_map stmt_targets b.
+
+Theorem ssound_exec_block fuel E b :
+  gk E = GPlain -> ssound (block_targets b) (exec_block fuel E b).
+Proof.
+  intros G. induction b as [|st r IH]; simpl.
+  - intros s res s' H. inversion H. apply step_refl.
+  - apply ssound_bind.
+    + eapply ssound_exec_stmt; [assumption|]. unfold block_targets. simpl. apply incl_appl, incl_refl.
+    + intros _ s res s' H. eapply step_mono; [|eapply IH; eauto].
+      unfold block_targets. simpl. apply incl_appr, incl_refl.
+Qed.
+
+(** the exec no-leak theorem on [run_exec] *)
+Theorem run_exec_frame mt b blk c h :
+  let s' := snd (run_exec mt b blk c h) in
+  ctx s' = apply_saves c (saves s')
+  /\ Forall (fun d => incl (ns_keys d) (block_targets blk)) (saves s').
+Proof.
+  cbv zeta. unfold run_exec. destruct (forallb wf_stmt blk).
+  - destruct (exec_block FUEL (exec_env mt b) blk (exec_state c h)) as [r s'] eqn:E. simpl.
+    apply ssound_exec_block in E; [|reflexivity].
+    destruct E as (ds & A & B & C & D). simpl in A, B. rewrite A, B. split; [reflexivity|assumption].
+  - simpl. split; [reflexivity|constructor].
+Qed.
+
+Corollary run_exec_key_untouched mt b blk c h k :
+  ~ In k (block_targets blk) ->
+  ns_get k (ctx (snd (run_exec mt b blk c h))) = ns_get k c.
+Proof.
+  intros N. destruct (run_exec_frame mt b blk c h) as [A B]. rewrite A.
+  apply apply_saves_get_untouched. intros d Hd Hk.
+  rewrite Forall_forall in B. apply N. eapply B; eauto.
+Qed.
+
+Corollary run_exec_new_keys mt b blk c h k :
+  In k (ns_keys (ctx (snd (run_exec mt b blk c h)))) -> In k (ns_keys c) \/ In k (block_targets blk).
+Proof.
+  intros H. destruct (run_exec_frame mt b blk c h) as [A B]. rewrite A in H.
+  apply apply_saves_keys in H. destruct H as [H|[d [Hd Hk]]]; [now left|right].
+  rewrite Forall_forall in B. eapply B; eauto.
+Qed.
+
+(** * Reads *)
+Lemma find_local_notlocal x fs : forall c c', find_local x fs c = LNotLocal -> find_local x fs c' = LNotLocal.
+Proof.
+  induction fs as [|f r IH]; intros c c' H; simpl in *; [reflexivity|].
+  destruct (fv_get x (fvars f)) as [[v|]|].
+  - discriminate.
+  - destruct c; discriminate.
+  - eapply IH; eauto.
+Qed.
+
+Theorem load_ctx_key E x v s :
+  gk E = GChain -> cls E = false -> find_local x (frames s) false = LNotLocal ->
+  ns_get x (ctx s) = Some v -> load_var E x s = (Ok v, s).
+Proof.
+  intros G C L H. unfold load_var. rewrite L.
+  unfold load_global, load_name, chain_get. rewrite G, C, H. destruct (_ || _); reflexivity.
+Qed.
+
+Theorem load_import E x v s :
+  gk E = GChain -> cls E = false -> find_local x (frames s) false = LNotLocal ->
+  ns_get x (ctx s) = None -> ns_get x (imps s) = Some v -> load_var E x s = (Ok v, s).
+Proof.
+  intros G C L H I. unfold load_var. rewrite L.
+  unfold load_global, load_name, chain_get. rewrite G, C, H, I. destruct (_ || _); reflexivity.
+Qed.
+
+Theorem load_builtin E x v s :
+  gk E = GChain -> cls E = false -> find_local x (frames s) false = LNotLocal ->
+  ns_get x (ctx s) = None -> ns_get x (imps s) = None -> ns_get x (nsd s) = None ->
+  ns_get x (bi E) = Some v -> load_var E x s = (Ok v, s).
+Proof.
+  intros G C L H I D B. unfold load_var. rewrite L.
+  unfold load_global, load_name, chain_get, from_builtins. rewrite G, C, H, I, D, B.
+  destruct (_ || _); reflexivity.
+Qed.
+
+Theorem load_exec_global E x v s :
+  gk E = GPlain -> cls E = false -> find_local x (frames s) false = LNotLocal ->
+  ns_get x (g s) = Some v -> load_var E x s = (Ok v, s).
+Proof.
+  intros G C L H. unfold load_var. rewrite L.
+  unfold load_global, load_name. rewrite G, C, H. destruct (_ || _); reflexivity.
+Qed.
+
+Lemma exec_globals_get c x : x <> "save" -> x <> "__builtins__" -> ns_get x (exec_globals c) = ns_get x c.
+Proof. intros A B. unfold exec_globals. rewrite !ns_get_set_other; auto. Qed.
+
+(** a context key under any number of enclosing lambdas *)
+Definition nest_lam (xs : list string) (e : expr) : expr :=
+  fold_right (fun x body => XLam [x] body [XNone]) e xs.
+
+Lemma wtargets_nest xs x : wtargets (nest_lam xs (XName x)) = [].
+Proof. destruct xs; reflexivity. Qed.
+
+Lemma set_frames_same s : set_frames (frames s) s = s.
+Proof. destruct s; reflexivity. Qed.
+
+Theorem read_under_lambdas k v : forall xs n E s,
+  gk E = GChain -> cls E = false -> ~ In k xs ->
+  find_local k (frames s) false = LNotLocal -> ns_get k (ctx s) = Some v ->
+  eval (length xs + S n) E (nest_lam xs (XName k)) s = (Ok v, s).
+Proof.
+  induction xs as [|x r IH]; intros n E s G C N L H.
+  - simpl. apply load_ctx_key; assumption.
+  - cbn [length nest_lam fold_right plus eval eval_list].
+    fold (nest_lam r (XName k)).
+    assert (F : eval (length r + S n) E XNone s = (Ok PNone, s)).
+    { destruct (length r + S n)%nat eqn:Z; [lia|reflexivity]. }
+    unfold bindM at 1. unfold bindM at 1. rewrite F. unfold bindM at 1. cbn [ret].
+    unfold call_lambda. cbn [length Nat.eqb negb]. unfold bindM, modify.
+    rewrite (IH n (in_function E)); try assumption; try reflexivity.
+    + cbn [frames set_frames tl]. f_equal. destruct s; reflexivity.
+    + intros I. apply N. now right.
+    + cbn [frames set_frames find_local fn_frame fvars combine map app].
+      rewrite wtargets_nest. cbn [filter map app fv_get].
+      assert (Q : String.eqb k x = false). { apply String.eqb_neq. intros ->. apply N. now left. }
+      rewrite Q. cbn [fk orb]. eapply find_local_notlocal; eauto.
+Qed.
+
+(** * In-place mutation through a context name *)
+Lemma nth_error_list_upd {A} (l : list A) : forall i x y, nth_error l i = Some y -> nth_error (list_upd l i x) i = Some x.
+Proof.
+  induction l as [|a r IH]; intros [|i] x y H; simpl in *; try discriminate; auto.
+  eapply IH; eauto.
+Qed.
+
+Theorem exec_append_visible mt b c h k r items z :
+  ns_get k c = Some (PRef r) -> nth_error h r = Some (OList items) ->
+  k <> "save" -> k <> "__builtins__" ->
+  let res := run_exec mt b [SExpr (XAppend (XName k) (XInt z))] c h in
+  fst res = Ok tt /\ ctx (snd res) = c
+  /\ nth_error (heap (snd res)) r = Some (OList (items ++ [PInt z])).
+Proof.
+  intros H Hh N1 N2. cbv zeta. unfold run_exec.
+  assert (W : forallb wf_stmt [SExpr (XAppend (XName k) (XInt z))] = true).
+  { simpl. apply String.eqb_neq in N2. rewrite N2. reflexivity. }
+  rewrite W. change FUEL with (S (S 78)).
+  cbn [exec_block exec_stmt eval]. unfold bindM.
+  assert (L : load_var (exec_env mt b) k (exec_state c h) = (Ok (PRef r), exec_state c h)).
+  { apply load_exec_global; try reflexivity. simpl. rewrite exec_globals_get; assumption. }
+  rewrite L. cbn [check_list]. cbn [heap exec_state]. rewrite Hh. cbn [ret].
+  unfold heap_extend. cbn [heap exec_state]. rewrite Hh. cbn [ret fst snd ctx set_heap heap].
+  repeat split. eapply nth_error_list_upd; eauto.
+Qed.
+
+Theorem eval_append_visible mt b c i d h k r items z :
+  ns_get k c = Some (PRef r) -> nth_error h r = Some (OList items) -> k <> "__builtins__" ->
+  let res := run_eval mt b (XAppend (XName k) (XInt z)) (eval_state c i d h) in
+  fst res = Ok PNone /\ ctx (snd res) = c
+  /\ nth_error (heap (snd res)) r = Some (OList (items ++ [PInt z])).
+Proof.
+  intros H Hh N2. cbv zeta. unfold run_eval.
+  assert (W : wf_expr [] false false (XAppend (XName k) (XInt z)) = true).
+  { simpl. apply String.eqb_neq in N2. rewrite N2. reflexivity. }
+  rewrite W. change FUEL with (S (S 78)).
+  cbn [eval]. unfold bindM.
+  assert (L : load_var (eval_env mt b (XAppend (XName k) (XInt z))) k (set_frames [] (eval_state c i d h))
+              = (Ok (PRef r), set_frames [] (eval_state c i d h))).
+  { apply load_ctx_key; try reflexivity. exact H. }
+  rewrite L. cbn [check_list]. cbn [heap eval_state set_frames]. rewrite Hh. cbn [ret].
+  unfold heap_extend. cbn [heap eval_state set_frames]. rewrite Hh. cbn [ret fst snd ctx set_heap heap].
+  repeat split. eapply nth_error_list_upd; eauto.
+Qed.
+
+(** * The leak *)
+Definition leak_ctx : ns := [("a", PInt 1)].
+Definition leak_expr : expr := XWalrus "y" (XBin BAdd (XName "a") (XInt 2)).
+
+Lemma eval_leak_witness :
+  ctx (snd (run_eval std_mods std_builtins leak_expr (eval_state leak_ctx [] [] [])))
+  = [("a", PInt 1); ("y", PInt 3)].
+Proof. vm_compute. reflexivity. Qed.
